@@ -154,7 +154,7 @@ def gen_table(rng, V, sos, N, mode, counts=None):
     return table
 
 
-def gen_hist(rng, table, V, sos, T, B, explicit_sos=False):
+def gen_hist(rng, table, V, sos, T, B, explicit_sos=False, p_top=0.6):
     """B histories of length T over the vocabulary, spliced from listed n-grams (so that
     high-order entries are hit) and random tokens (so that back-off happens)."""
     pools = [[e[0] for e in level] for level in table[1:] if level]
@@ -167,7 +167,7 @@ def gen_hist(rng, table, V, sos, T, B, explicit_sos=False):
         while len(h) < T:
             if pools and rng.random() < 0.7:
                 # mostly the highest orders, so that long matches happen at all
-                k = rng.choice(pools[-1] if rng.random() < 0.6 else rng.choice(pools))
+                k = rng.choice(pools[-1] if rng.random() < p_top else rng.choice(pools))
                 if rng.random() < 0.4 and len(k) > 1:
                     k = k[:-1]
                 h += [t for t in k if ok(t)]
@@ -239,7 +239,7 @@ def gen_case(rng, tier, i):
         mode = rng.choice(["exact", "exact", "missing_suffix"])
     elif cls == "deep_narrow":
         # order 4, every pair of adjacent levels fits 8-bit offsets, but absolute positions do not
-        V = rng.randint(10, 14)
+        V = rng.randint(10, 60)
         sos = pick_sos(rng, V, kind)
         S = V + (0 if 0 <= sos < V else 1)
         N = 4
@@ -253,7 +253,11 @@ def gen_case(rng, tier, i):
     T = rng.randint(0, 14 if big else 7)
     if i % 11 == 0:
         T = 0
-    hist = gen_hist(rng, table, V, sos, T, B, explicit_sos=(cls == "explicit_sos_hist"))
+    p_top = 0.6
+    if cls == "deep_narrow":
+        # the nodes at risk are the highest-order entries allocated last: query many of them
+        B, T, p_top = 4, rng.randint(6, 14 if big else 7), 0.95
+    hist = gen_hist(rng, table, V, sos, T, B, explicit_sos=(cls == "explicit_sos_hist"), p_top=p_top)
     case = {
         "class": cls, "sos_kind": kind, "V": V, "sos": sos, "N": N, "table": table,
         "T": T, "B": B, "hist": hist, "idx": gen_idx(rng, T, B),
